@@ -152,6 +152,16 @@ def run(tier, seed):
                        candidate=m.get("candidate", False))
     from props import c21_user
     c21_user.verify(rep)
+    # "counts one error per write datagram whose counter differed from the
+    # expected value": the expected value the program compares with comes from
+    # packet.counters - append records the count it is given, append_fmmu
+    # passes the number of reading / writing terminals (C18's contracts,
+    # re-proved here)
+    from contracts import c18_alloc as S18
+    from props import c30
+    from vc.pyvc import api
+    api.verify(S18.s_append, rep, quiet=True)
+    api.verify(S18.s_append_fmmu, rep, quiet=True, replay=c30.native_fmmu)
     # The last clause of the property - a frame goes back onto the bus with
     # enabled write datagrams only if the group's program processed it in that
     # pass - also rests on the dispatcher: only frames it hands to the group
